@@ -26,6 +26,7 @@ import (
 
 func slowPeer(res *fw.Result) error {
 	var upgrades int64
+	var peerFault, peerEnd atomic.Value // what the peer itself saw go wrong, if anything
 	up := websocket.Upgrader{ReadBufferSize: 1024}
 	ts := httptest.NewServer(http.HandlerFunc(func(w http.ResponseWriter, r *http.Request) {
 		conn, err := up.Upgrade(w, r, nil)
@@ -38,13 +39,29 @@ func slowPeer(res *fw.Result) error {
 		}
 		stop := make(chan struct{})
 		defer close(stop)
+		// the peer itself must never be the one that gives up: its control writes get a deadline far beyond
+		// anything this scenario needs (gorilla marks a connection unusable once a control write times out,
+		// and its default ping handler then fails the read side), and their failures are recorded
+		patient := func() time.Time { return time.Now().Add(25 * time.Second) }
+		conn.SetPingHandler(func(d string) error {
+			if err := conn.WriteControl(websocket.PongMessage, []byte(d), patient()); err != nil {
+				peerFault.Store(fmt.Sprintf("pong write: %v", err))
+			}
+			return nil
+		})
 		go func() {
 			t := time.NewTicker(100 * time.Millisecond)
 			defer t.Stop()
 			for {
 				select {
 				case <-t.C:
-					conn.WriteControl(websocket.PingMessage, []byte("p"), time.Now().Add(time.Second))
+					if err := conn.WriteControl(websocket.PingMessage, []byte("p"), patient()); err != nil {
+						select {
+						case <-stop:
+						default:
+							peerFault.Store(fmt.Sprintf("ping write: %v", err))
+						}
+					}
 				case <-stop:
 					return
 				}
@@ -54,6 +71,7 @@ func slowPeer(res *fw.Result) error {
 		for {
 			_, data, err := conn.ReadMessage()
 			if err != nil {
+				peerEnd.Store(err.Error())
 				return
 			}
 			var rq struct {
@@ -85,15 +103,24 @@ func slowPeer(res *fw.Result) error {
 	go func() { v, err := cl.Put(context.Background(), big); ch <- out{v, err} }()
 	sig := "healthy link, peer slow to read for 2.2s while a 48 MiB request is written"
 	c := map[string]interface{}{"scenario": "slow-peer", "peer_ping_ms": 100, "peer_pause_ms": 2200, "request_bytes": 48 << 20, "timeout": "30s"}
+	failed := false
 	select {
 	case o := <-ch:
 		if o.err != nil || o.v != 4242 {
-			res.Add(fw.Finding{Kind: "monitor", Signature: sig + " call failed", Detail: fmt.Sprintf("the call returned (%d, %v) although the link was healthy throughout (timeout 30s, the peer kept pinging)", o.v, o.err), Case: c})
+			failed = true
+			if pf := peerFault.Load(); pf != nil {
+				// the peer's own writes failed (a starved process): the link was not healthy, nothing to conclude
+				res.Count("slowpeer.inconclusive-peer-failed")
+				res.Sample(map[string]interface{}{"scenario": "slow-peer", "inconclusive": pf})
+			} else {
+				res.Add(fw.Finding{Kind: "monitor", Signature: sig + " call failed", Detail: fmt.Sprintf("the call returned (%d, %v) although the link was healthy throughout (timeout 30s, the peer kept pinging; the peer's read loop ended with: %v)", o.v, o.err, peerEnd.Load()), Case: c})
+			}
 		}
 	case <-time.After(20 * time.Second):
-		res.Add(fw.Finding{Kind: "monitor", Signature: sig + " call hangs", Detail: "the call did not return within 20s", Case: c})
+		failed = true
+		res.Add(fw.Finding{Kind: "monitor", Signature: sig + " call hangs", Detail: fmt.Sprintf("the call did not return within 20s (peer: fault %v, end %v)", peerFault.Load(), peerEnd.Load()), Case: c})
 	}
-	if n := atomic.LoadInt64(&upgrades); n != 1 {
+	if n := atomic.LoadInt64(&upgrades); n != 1 && !(failed && peerFault.Load() != nil) {
 		res.Add(fw.Finding{Kind: "monitor", Signature: sig + " healthy link dropped", Detail: fmt.Sprintf("the client connected %d times: it dropped a healthy link and redialled", n), Case: c})
 	}
 	done := make(chan struct{})
